@@ -71,6 +71,21 @@ def responses(n, dt):
             return 0.25 + 0.5j
         return 0.75
     add("scalar_ValueError", scalar_valueerror, scalar_valueerror)
+    # a tabulated response: the same complex array object is handed back for the same frequency array, as a memoised gain
+    # table would; the library must treat it as read-only (checked after the run via `.table` / `.pristine`)
+    table, pristine = {}, {}
+
+    def tabulated(f):
+        if not np.ndim(f):
+            return complex(1 / (1 + 1j * float(f) / fc)) * cmath.exp(-2j * math.pi * float(f) * dt)
+        f = np.asarray(f, dtype=float)
+        key = f.tobytes()
+        if key not in table:
+            table[key] = np.asarray(1 / (1 + 1j * f / fc) * np.exp(-2j * np.pi * f * dt), dtype=np.complex128)
+            pristine[key] = table[key].copy()
+        return table[key]
+    tabulated.table, tabulated.pristine = table, pristine
+    add("tabulated", tabulated, lambda f: (1 / (1 + 1j * f / fc)) * cmath.exp(-2j * math.pi * f * dt))
     add("list_valued", lambda f: [0.5 - 0.25j] * len(f) if np.ndim(f) else 0.5 - 0.25j, lambda f: 0.5 - 0.25j)
     return out
 
@@ -181,6 +196,13 @@ def evaluate(case):
             if not np.max(np.abs(sig.values - 3.0 * outs[b])) <= 3 * tol:
                 fails.append(_f("response-homogeneity", case, rname, b, "filter with 3R != 3 filter with R: %.3g"
                                 % np.max(np.abs(sig.values - 3.0 * outs[b]))))
+        if hasattr(lib, "table"):
+            for key, arr in lib.table.items():
+                if not np.array_equal(arr, lib.pristine[key]):
+                    fails.append(_f("response-array-modified", case, rname, "delta0",
+                                    "the array returned by the response function was modified in place by filter_frequencies "
+                                    "(%d of %d entries changed)" % (int(np.sum(arr != lib.pristine[key])), arr.size)))
+                    break
     # ---- function-backed signals: the same filter, applied once to the buffer-extended samples -----------------------------
     if n <= 65:
         from pyrex.signals import FunctionSignal
